@@ -44,11 +44,11 @@ def reset_rng():
 SHAPES = {"field": {"": (3,)}, "multi": {"a": (3,), "b": (2,)}}
 
 
-def arrays(uid, ftype, keys=None):
+def arrays(uid, ftype, keys=None, off=0.0):
     rng = np.random.default_rng(1000 + uid)
     out = {}
     for k, shp in SHAPES[ftype].items():
-        v = rng.uniform(-2., 2., shp)
+        v = rng.uniform(-2., 2., shp) + off
         if keys is None or k in keys:
             out[k] = v
     return out
@@ -78,9 +78,10 @@ def from_field(f):
 def expected_samples(entry):
     """numpy contents of every sample of a model entry."""
     ft = entry["ftype"]
+    off = entry.get("off", 0.0)
     if entry["kind"] == "plain":
-        return [arrays(u, ft) for u in entry["uids"]]
-    mean = arrays(entry["mean"], ft)
+        return [arrays(u, ft, off=off) for u in entry["uids"]]
+    mean = arrays(entry["mean"], ft, off=off)
     out = []
     for u, neg in zip(entry["uids"], entry["negs"]):
         r = arrays(u, ft, keys=("a",) if entry["sub"] and ft == "multi" else None)
@@ -121,6 +122,25 @@ def close(a, b, rtol=1e-11):
             return False
         scale = max(1.0, float(np.max(np.abs(y))) if y.size else 1.0)
         if not np.all(np.abs(x - y) <= rtol * scale):
+            return False
+    return True
+
+
+def var_close(got, var, mean, n):
+    """Variance comparison with a conditioning-aware tolerance: a backward-stable
+    one-pass or two-pass formula has relative error ~ n*eps*kappa with
+    kappa = sqrt(1 + mean^2/var); the textbook E[x^2]-E[x]^2 has eps*kappa^2."""
+    if set(got) != set(var):
+        return False
+    eps = np.finfo(float).eps
+    for k in var:
+        g, v, m = np.asarray(got[k], dtype=float), np.asarray(var[k], dtype=float), np.asarray(mean[k], dtype=float)
+        if g.shape != v.shape:
+            return False
+        vs = max(float(np.max(v)), 1e-300) if v.size else 1.0
+        kappa = float(np.sqrt(1.0 + np.max(m * m) / vs)) if v.size else 1.0
+        tol = (1e-11 + 200.0 * max(n, 2) * eps * kappa) * max(vs, 1e-300)
+        if not np.all(np.abs(g - v) <= tol) or not np.all(np.isfinite(g)):
             return False
     return True
 
@@ -194,7 +214,9 @@ def plan_subop(w, so, n):
         part = [b - a for a, b in zip([0] + cuts, cuts + [m])]
         new = {"kind": so["kind"], "ftype": so["ftype"], "uids": [w.new_uid() for _ in range(m)],
                "negs": [bool(x) for x in (so["negs"] + [0] * m)[:m]], "sub": bool(so["sub"]),
-               "mean": w.new_uid() if so["kind"] == "residual" else None, "unknown": False}
+               "mean": w.new_uid() if so["kind"] == "residual" else None, "unknown": False,
+               # ill-conditioned for variance formulas: large common offset, unit scatter
+               "off": 1e8 if so.get("big") else 0.0}
         if 0 in part:
             w.probes["empty_rank_in_save"] += 1
         exists = bool(idx & set(range(m + 1))) or (so["kind"] == "residual" and mean)
@@ -244,6 +266,10 @@ def plan_subop(w, so, n):
         return plan
     plan["expect"] = "ok"
     plan["entry"] = ent
+    if ent.get("off") and plan.get("opname") == "nonlin":
+        plan["opname"] = "lin"                   # exp(0.3e8) overflows
+    if ent.get("off") and kind in ("stats", "hdf5"):
+        w.probes["ill_conditioned_stats"] = w.probes.get("ill_conditioned_stats", 0) + 1
     m = len(ent["uids"])
     if any(i > m for i in idx):
         w.probes["stale_higher_file_at_load"] += 1
@@ -272,10 +298,11 @@ def rank_script(w, plans):
     def build(entry, lo, hi, comm):
         ft = entry["ftype"]
         D = doms[ft]
+        off = entry.get("off", 0.0)
         if entry["kind"] == "plain":
-            items = [to_field(arrays(u, ft), ft, D) for u in entry["uids"][lo:hi]]
+            items = [to_field(arrays(u, ft, off=off), ft, D) for u in entry["uids"][lo:hi]]
             return ift.SampleList(items, comm=comm, domain=D)
-        mean = to_field(arrays(entry["mean"], ft), ft, D)
+        mean = to_field(arrays(entry["mean"], ft, off=off), ft, D)
         sub = entry["sub"] and ft == "multi"
         rd = doms["sub"] if sub else D
         res = [to_field(arrays(u, ft, keys=("a",) if sub else None), ft, rd) for u in entry["uids"][lo:hi]]
@@ -400,7 +427,7 @@ def check_phase(w, phase, plans, out):
                 res = outs[r][1]
                 if not close(res["average"], mean) or not close(res["stat_mean"], mean):
                     raise Violation({"oracle": "mean-differs", "op": what}, f"rank {r}/{n}")
-                if not close(res["stat_var"], var):
+                if not var_close(res["stat_var"], var, mean, m):
                     raise Violation({"oracle": "variance-differs", "op": what}, f"rank {r}/{n}: {res['stat_var']} vs {var}")
             w.probes["stats_checked"] += 1
         if what == "hdf5":
@@ -429,7 +456,7 @@ def check_phase(w, phase, plans, out):
                 raise Violation({"oracle": "hdf5-groups-differ", "op": what}, f"stats: {sorted(st)}")
             if pl["mean"] and not close(st["mean"], mean):
                 raise Violation({"oracle": "hdf5-mean-differs", "op": what}, "")
-            if pl["std"] and not close(st["standard deviation"], {k: np.sqrt(v) for k, v in var.items()}):
+            if pl["std"] and not var_close({k: np.square(v) for k, v in st["standard deviation"].items()}, var, mean, m):
                 raise Violation({"oracle": "hdf5-std-differs", "op": what}, "")
             w.probes["hdf5_exports_checked"] += 1
 
@@ -499,7 +526,8 @@ def strategies():
         "op": st.just("save"), "base": base, "kind": st.sampled_from(["plain", "residual"]),
         "ftype": st.sampled_from(["field", "multi"]), "m": st.integers(1, 5),
         "cuts": st.lists(st.integers(0, 5), min_size=0, max_size=3), "overwrite": st.booleans(),
-        "negs": st.lists(st.integers(0, 1), min_size=0, max_size=5), "sub": st.booleans()})
+        "negs": st.lists(st.integers(0, 1), min_size=0, max_size=5), "sub": st.booleans(),
+        "big": st.sampled_from([False, False, True])})
     save_ow = save.map(lambda d: dict(d, overwrite=True))
     load = st.fixed_dictionaries({"op": st.just("load"), "base": base, "cls": st.sampled_from(["plain", "residual"])})
     stats = st.fixed_dictionaries({"op": st.just("stats"), "base": base, "opname": opn})
